@@ -244,6 +244,8 @@ class ReplayPlan(AbsGen):
             raise PyRaise(I.mkexc("TypeError", "can't send non-None value to a just-started generator"))
         self.started = True
         labels = [a[0] for a in eng.replay_alphabet(self)]
+        if getattr(eng, "exact_empty_replay", False) and not self.cached:
+            labels = []          # opt-in refinement: the replay of an EMPTY cache yields nothing (the list handed to _rewind is the real one)
         opts = (labels if labels else []) + ([] if self.must_yield and labels else ["exhausted"])
         c = w.choose(opts, "replay")
         self.must_yield = False
@@ -257,7 +259,8 @@ class ReplayPlan(AbsGen):
         return ("yield", m)
 
     def canon(self, cn):
-        return ("replay", self.started, self.done, self.must_yield)
+        exact = getattr(self.eng, "exact_empty_replay", False)
+        return ("replay", self.started, self.done, self.must_yield) + ((len(self.cached) > 0,) if exact else ())
 
 
 def cache_uses_ok(I):
